@@ -139,6 +139,11 @@ func ParseResponse(data []byte, req *http.Request) (resp *Response, err error) {
 	if err != nil {
 		return nil, errors.Join(errInvalidResponse, fmt.Errorf("failed to read response: %w", err))
 	}
+	// The serialised form may carry connection-level fields that belong to the
+	// dump, not to the stored response (DumpResponse writes "Connection: close"
+	// for a close-delimited HTTP/1.0 response); hop-by-hop fields are never
+	// replayed (RFC 9111 §3.1).
+	removeHopByHopHeaders(r)
 	resp.Data = r
 	return resp, nil
 }
